@@ -375,7 +375,10 @@ def m_ok_or_else(ctx):
     def none(c2):
         def cont(eng, st, stash, ret):
             return finish_call(eng, st, stash, mk_enum(eng, "Result", "Err", [copy_node(ret)], ty=stash["dest_ty"]))
-        return c2.eng.call_closure(c2.st, c2.args[1], [], call_stash(c2), cont)
+        cl = closure_of(c2.eng, c2.args[1])
+        if cl is None:
+            raise Unsupported("ok_or_else with a callable that is not a closure of the crate")
+        return c2.eng.call_closure(c2.st, cl, [], call_stash(c2), cont)
 
     return ctx.fork([(tag == bv64(1), some), (tag == bv64(0), none)])
 
@@ -399,7 +402,7 @@ def m_map_err(ctx):
     r, f = ctx.args
     tag = _opt_tag(ctx, r, "Result")
     ctor = _ctor_of(f)
-    if ctor is None and ctx.eng.closure_body(f.ty) is None:
+    if ctor is None and closure_of(ctx.eng, f) is None:
         return ctx.eng.uninterpreted(ctx.st, ctx.frame, ctx.dest, ctx.dest_ty, ctx.ret_bb, ctx.callee, ctx.norm,
                                      ctx.args, ctx.site)
 
@@ -417,7 +420,7 @@ def m_map_err(ctx):
 
         def cont(eng, st, stash, ret):
             return finish_call(eng, st, stash, mk_enum(eng, "Result", "Err", [copy_node(ret)], ty=stash["dest_ty"]))
-        return c2.eng.call_closure(c2.st, c2.args[1], [e], call_stash(c2), cont)
+        return c2.eng.call_closure(c2.st, closure_of(c2.eng, c2.args[1]), [e], call_stash(c2), cont)
 
     return ctx.fork([(tag == bv64(0), ok), (tag == bv64(1), err)])
 
@@ -425,7 +428,21 @@ def m_map_err(ctx):
 def _ctor_of(arg):
     """fn-item operand naming an enum/tuple-struct constructor -> path text or None."""
     if arg.conc and isinstance(arg.conc, tuple) and arg.conc[0] == "const":
+        if "{closure@" in arg.conc[1]:
+            return None
         return arg.conc[1]
+    return None
+
+
+def closure_of(eng, arg):
+    """closure value (captured environment node) if `arg` is a closure whose body is in the dump."""
+    if arg.conc and isinstance(arg.conc, tuple) and arg.conc[0] == "const" and "{closure@" in arg.conc[1]:
+        m = re.search(r"\{closure@[^}]*\}", arg.conc[1])
+        n = Node(fresh_root("zc"), ty=m.group(0))
+        n.fields = {}
+        return n if eng.closure_body(n.ty) is not None else None
+    if arg.ty and "{closure@" in arg.ty and eng.closure_body(arg.ty) is not None:
+        return arg
     return None
 
 
@@ -444,7 +461,8 @@ def m_map_ctor(head, good, bad):
     def model(ctx):
         o, f = ctx.args
         ctor = _ctor_of(f)
-        if ctor is None:
+        clos = closure_of(ctx.eng, f) if ctor is None else None
+        if ctor is None and clos is None:
             return ctx.eng.uninterpreted(ctx.st, ctx.frame, ctx.dest, ctx.dest_ty, ctx.ret_bb, ctx.callee,
                                          ctx.norm, ctx.args, ctx.site)
         tag = _opt_tag(ctx, o, head)
@@ -453,6 +471,12 @@ def m_map_ctor(head, good, bad):
 
         def g(c2):
             v = payload(c2.eng, c2.args[0], good, 0)
+            if ctor is None:
+                cl = closure_of(c2.eng, c2.args[1])
+
+                def cont(eng, st, stash, ret):
+                    return finish_call(eng, st, stash, mk_enum(eng, head, good, [copy_node(ret)], ty=stash["dest_ty"]))
+                return c2.eng.call_closure(c2.st, cl, [copy_node(v)], call_stash(c2), cont)
             w = apply_ctor(c2, ctor, copy_node(v))
             if w is None:
                 raise Unsupported("map with non-constructor fn item %s" % ctor)
@@ -615,8 +639,7 @@ def m_deref_vec(ctx):
 def vec_slice(eng, v):
     if v.vec is None:
         self_ty = v.ty
-        s = v.child(".buf", ("[%s]" % elem_ty(self_ty)) if elem_ty(self_ty) else None)
-        v.vec = s
+        v.vec = eng.intern(v, ".buf", ("[%s]" % elem_ty(self_ty)) if elem_ty(self_ty) else None)
     return v.vec
 
 
@@ -646,12 +669,16 @@ def m_vec_is_empty(ctx):
 def m_index_usize(ctx):
     """<Vec<T> as Index<usize>>::index / <[T] as Index<usize>>: bounds check + element reference."""
     eng = ctx.eng
+    from .itermodels import index_elem
     v = eng.deref(ctx.args[0])
     if v.vec is not None or (v.ty and "Vec<" in v.ty):
         v = vec_slice(eng, v)
     idx = eng.scalar(ctx.args[1], "usize")
     ln = eng.length(v)
     inb = z3.ULT(idx, ln)
+    c = z3.simplify(inb)
+    if z3.is_true(c):
+        return ctx.ret(mk_ref(index_elem(eng, ctx.st, v, idx), ctx.dest_ty))
 
     def bad(c2):
         c2.panic("index out of bounds")
@@ -660,7 +687,7 @@ def m_index_usize(ctx):
         vv = c2.eng.deref(c2.args[0])
         if vv.vec is not None or (vv.ty and "Vec<" in vv.ty):
             vv = vec_slice(c2.eng, vv)
-        return c2.ret(mk_ref(c2.eng.elem(vv, idx), c2.dest_ty))
+        return c2.ret(mk_ref(index_elem(c2.eng, c2.st, vv, idx), c2.dest_ty))
 
     return ctx.fork([(z3.Not(inb), bad), (inb, ok)])
 
